@@ -1533,6 +1533,7 @@ class Message(ABC):
                     if (
                         value != DATETIME_ZERO
                         or include_default_values
+                        or meta.optional
                         or self._include_default_value_for_oneof(
                             field_name=field_name, meta=meta
                         )
@@ -1542,6 +1543,7 @@ class Message(ABC):
                     if (
                         value != timedelta(0)
                         or include_default_values
+                        or meta.optional
                         or self._include_default_value_for_oneof(
                             field_name=field_name, meta=meta
                         )
@@ -1842,6 +1844,7 @@ class Message(ABC):
                     if (
                         value != DATETIME_ZERO
                         or include_default_values
+                        or meta.optional
                         or self._include_default_value_for_oneof(
                             field_name=field_name, meta=meta
                         )
@@ -1851,6 +1854,7 @@ class Message(ABC):
                     if (
                         value != timedelta(0)
                         or include_default_values
+                        or meta.optional
                         or self._include_default_value_for_oneof(
                             field_name=field_name, meta=meta
                         )
